@@ -3,6 +3,7 @@ COMMON_ASSUMPTIONS = [
     "executions are sequentially consistent at hook/lock granularity: compiler/CPU reorderings and preemption between two statements with no hook between them are not explored",
     "only the PTHREAD build is simulated; the OpenMP variant shares all code except the pragmas in p?gstrf.c, pxgstrf_scheduler.c, pmemory.c, pxgstrf_synch.c",
     "built-in BLAS kernels (CBLAS/ and ?myblas2.c from the repository); the vendor-BLAS configuration is not part of this run",
+    "32-bit indices except in the batches of flavour 'long' (-D_LONGINT) listed under coverage.seeds",
     "seeded sampling, not enumeration: a clean batch is evidence, not proof",
     "libc, the allocator and the long-double reference oracles are trusted",
 ]
@@ -19,10 +20,10 @@ RULE_A = ("cases are generated from the seed: configuration (pattern family, val
 
 CHECKS = {
  'C01': dict(seed_offset=1, level='exploration', rule=RULE_A, props=['C01'],
-             batches=[dict(profile='ssv', flavour='plain', quick=60000, thorough=3000000), dict(profile='ssv', flavour='asan', quick=4000, thorough=150000)],
+             batches=[dict(profile='ssv', flavour='plain', quick=60000, thorough=3000000), dict(profile='ssv', flavour='asan', quick=4000, thorough=150000), dict(profile='ssv', flavour='long', quick=8000, thorough=400000)],
              must_probe=['solves_checked', 'spin_blocks', 'numbering_ne_storage_order', 'nprocs_gt_n']),
  'C02': dict(seed_offset=2, level='exploration', rule=RULE_A, props=['C02'],
-             batches=[dict(profile='strf', flavour='plain', quick=60000, thorough=3000000), dict(profile='strf', flavour='asan', quick=4000, thorough=150000)],
+             batches=[dict(profile='strf', flavour='plain', quick=60000, thorough=3000000), dict(profile='strf', flavour='asan', quick=4000, thorough=150000), dict(profile='strf', flavour='long', quick=8000, thorough=400000)],
              must_probe=['factorizations_checked', 'update_2d', 'supernode_spans_two_panels', 'panel_split_at_top', 'offdiag_pivots']),
  'C03': dict(seed_offset=3, level='exploration', rule=RULE_A, props=['C03'],
              batches=[dict(profile='pipe', flavour='plain', quick=60000, thorough=3000000), dict(profile='strf', flavour='plain', quick=20000, thorough=1000000)],
@@ -48,7 +49,7 @@ CHECKS = {
              must_probe=['svx_berr_checked', 'svx_berr_small_checked', 'svx_ferr_checked']),
  'C08': dict(seed_offset=8, level='exploration', rule=RULE_A + "; a case here is a history of 2..8 operations over one sparsity pattern (first factorization, refactorizations with new values and optional pivot reuse, solves with existing factors, destroy + first factorization again), nprocs/strategy/schedule drawn anew per operation",
              props=['C08', 'C01', 'C02', 'C09', 'C07'],
-             batches=[dict(profile='hist', flavour='plain', quick=25000, thorough=1500000), dict(profile='hist', flavour='asan', quick=2500, thorough=100000)],
+             batches=[dict(profile='hist', flavour='plain', quick=25000, thorough=1500000), dict(profile='hist', flavour='asan', quick=2500, thorough=100000), dict(profile='hist', flavour='long', quick=4000, thorough=200000)],
              must_probe=['refactorizations', 'factored_calls', 'factor_reuse_solves_checked', 'usepr_all_old_pivots_pass', 'usepr_old_pivot_fails', 'user_workspace_calls']),
  'C14': dict(seed_offset=14, level='fault_enumeration',
              rule=("enumerating profile: configuration = seed div 128 (pattern, values, precision, driver, nprocs 1..4, tunables); item = seed mod 128: 0 fault-free baseline (counts the K allocator "
